@@ -74,6 +74,7 @@ struct ROp {
   Op op;
   int eng = E_NONE;
   int tier = 0;
+  bool bool_root = false; // also part of the alphabet of root 2 (boolean region with two objects)
 };
 std::vector<ROp> ALPHA;
 Op mk(int kind) { Op o; o.kind = kind; return o; }
@@ -92,6 +93,12 @@ Op reg_copy(int dst, int src) { Op o = mk(O_REG_COPY); o.v0 = dst; o.v1 = src; r
 Op reg_init(int r) { Op o = mk(O_REG_INIT); o.v0 = r; return o; }
 Op assign(int x, LinExp e) { Op o = mk(O_ASSIGN); o.v0 = x; o.e = e; return o; }
 Op forget(int x) { Op o = mk(O_FORGET); o.v0 = x; return o; }
+Op bool_const(int b, bool val) { Op o = mk(O_BOOL_ASSIGN_CST); o.v0 = b; o.c = val ? cst({}, 0, C_LEQ) : cst({}, 1, C_LEQ); return o; } // 0<=0 / 1<=0
+void mark_bool_root(std::initializer_list<const char *> names) {
+  for (auto n : names)
+    for (auto &a : ALPHA)
+      if (a.name == n) a.bool_root = true;
+}
 
 void build_alphabet() {
   ALPHA.clear();
@@ -136,6 +143,16 @@ void build_alphabet() {
   add("b2:=load(q,RB)", ref_load(VQ, VRB, VB2), 1);
   add_eng("swap", E_SWAP, 1);
   add_eng("meet(saved)", E_MEET, 1);
+  // root 2 only (tier 2): definite boolean values
+  add("b1:=true", bool_const(VB1, true), 2);
+  add("b1:=false", bool_const(VB1, false), 2);
+  add("q:=gep(p,RB,0)", ref_gep(VP, VRB, VQ, VRB, 0), 2);
+  mark_bool_root({"b1:=true", "b1:=false", "q:=gep(p,RB,0)", "havoc(b1)", "store(p,RB,b1)", "store(q,RB,b1)", "b2:=load(p,RB)", "b2:=load(q,RB)",
+                  "assume(p==q)", "assume(p!=q)", "save", "join(saved)", "widen(saved)", "swap", "p:=make_ref(RB,site5)"});
+}
+bool enabled(const ROp &a, int root, int maxtier) {
+  if (root == 2) return a.bool_root;
+  return a.tier <= maxtier && a.tier < 2;
 }
 
 // ---- concrete semantics -----------------------------------------------------------------
@@ -221,6 +238,7 @@ bool cstep(const ROp &a, const RW &in, std::vector<RW> &out) {
   }
   case O_REG_COPY: rgn(w, o.v0) = rgn(w, o.v1); out.push_back(w); return true;
   case O_ASSIGN: w.sc[0] = in.sc[0] + o.e.cst; out.push_back(w); return true; // only x:=x+k
+  case O_BOOL_ASSIGN_CST: w.sc[2] = o.c.holds(in.sc.data()) ? 1 : 0; out.push_back(w); return true; // constant conditions only
   case O_FORGET: // havoc(b1)
     for (long b : {0L, 1L}) { w.sc[2] = b; out.push_back(w); }
     return true;
@@ -282,6 +300,20 @@ Node initial_node() {
     }
     // the references are null in every witness: tell the domain nothing (top is sound)
     n.r[i].W = initial_witnesses();
+    if (ROOT == 2) { // a boolean region holding two objects, referenced by p and q
+      n.r[i].box->apply(reg_init(VRB), nullptr);
+      for (int which = 0; which < 2; which++) {
+        ROp mk_op;
+        mk_op.op = ref_make(which == 0 ? VP : VQ, VRB, 5 + which);
+        n.r[i].box->apply(mk_op.op, nullptr);
+        RWSet nw;
+        for (auto &w : n.r[i].W) {
+          std::vector<RW> out;
+          if (cstep(mk_op, w, out)) nw.insert(nw.end(), out.begin(), out.end());
+        }
+        n.r[i].W = nw;
+      }
+    }
   }
   return n;
 }
@@ -292,7 +324,7 @@ std::string path_str(const std::vector<int> &p) {
   return s;
 }
 std::string path_names(const std::vector<int> &p) {
-  std::string s = ROOT == 0 ? "init(R1); init(RR); init(RB)" : "(no region_init)";
+  std::string s = ROOT == 0 ? "init(R1); init(RR); init(RB)" : (ROOT == 1 ? "(no region_init)" : "init(RB); p:=make_ref(RB,site5); q:=make_ref(RB,site6)");
   for (size_t i = 0; i < p.size(); i++) s += " ; " + ALPHA[p[i]].name;
   return s;
 }
@@ -453,7 +485,7 @@ uint64_t state_key(const Node &n) {
 void dfs(Node &n, int depth, std::vector<int> &path, int lo, int hi, int maxtier) {
   if (depth >= MAXD) return;
   for (int oi = lo; oi < hi; oi++) {
-    if (ALPHA[oi].tier > maxtier) continue;
+    if (!enabled(ALPHA[oi], ROOT, maxtier)) continue;
     Node m = n;
     path.push_back(oi);
     vp::set_case("h|" + DOMNAME + "|" + CFGNAME + "|" + std::to_string(ROOT) + "|" + path_str(path));
@@ -529,15 +561,17 @@ int main(int argc, char **argv) {
       if (cut) break;
       apply_config(cfg);
       CFGNAME = cfg.name;
-      for (ROOT = 0; ROOT < 2 && !cut; ROOT++)
+      for (ROOT = 0; ROOT < 3 && !cut; ROOT++)
         for (int phase = 0; phase < 2 && !cut; phase++) {
           MAXD = phase == 0 ? depth_ext : depth_core;
           if (ROOT == 1) MAXD = std::min(MAXD, 3); // without region_init everything is unknown: shallow exploration
+          if (ROOT == 2 && phase == 0) continue;   // root 2 has a single alphabet
+          if (ROOT == 2) MAXD = depth_core + 1;
           int maxtier = phase == 0 ? 1 : 0;
           for (int o1 = 0; o1 < (int)ALPHA.size() && !cut; o1++) {
-            if (ALPHA[o1].tier > maxtier) continue;
+            if (!enabled(ALPHA[o1], ROOT, maxtier)) continue;
             for (int o2 = 0; o2 < (int)ALPHA.size(); o2++) {
-              if (ALPHA[o2].tier > maxtier) continue;
+              if (!enabled(ALPHA[o2], ROOT, maxtier)) continue;
               if (!vp::mine(unit++)) continue;
               if (vp::past_deadline()) { vp::incomplete(DOMNAME + " " + CFGNAME + " phase " + std::to_string(phase)); cut = true; break; }
               seen.clear();
